@@ -5,6 +5,24 @@ HERE = os.path.dirname(os.path.dirname(os.path.abspath(__file__)))
 
 # id -> (technique, level text, level note, design section)
 CHECKS = {
+ "C05": ("property-based testing: generated outcome scripts x retry configurations in the simulator; reference reading of the script plus logged budget/backoff decisions",
+         "Generated search over max_attempts, backoff policies, predicates, budgets and 1-4 concurrent requests sharing a budget; the oracle recomputes from the script what the layer may do and checks attempts, stop reason, result identity, backoff gaps and budget grants. Exploration.",
+         "Budget and interval decisions are observed through logging wrappers around the real implementations; longer waits than the backoff are allowed.", "5/C05"),
+ "C06": ("property-based testing: generated deadlines/latencies around the boundary under a virtual clock; exact-instant oracle with tie acceptance",
+         "Generated search over timeouts, latencies at deadline-1/deadline/deadline+1, both cancellation modes and concurrent calls; checks the exact resolution instant, payload identity and the fate of the inner future. Exploration.",
+         "latency == timeout is a tie (either outcome); tokio select! order is not generated.", "5/C06"),
+ "C08": ("property-based testing over generated schedules: baton scheduler owning every instrumented atomic step of the real budget code; conservation invariant after each step and brute-force linearizability at quiescence",
+         "Generated search over budget parameters, 2-4 threads of operations and the interleaving of their atomic steps (preemption-bounded and random schedules). Exploration of sequentially consistent interleavings.",
+         "Needs the verif-hooks feature (instrumented atomics); weak-memory reorderings of Relaxed operations are not explored; AIMD linearizability is checked on the balance with a free ceiling.", "5/C08"),
+ "C12": ("property-based testing: generated per-attempt latency/outcome vectors and delay configurations under a virtual clock; constraint oracle over start instants and the result",
+         "Generated search over max attempts, fixed/zero/per-attempt delays and outcome vectors with failures placed around hedge starts; constraints (not one schedule) on starts, the winning response and all-attempts-failed. Exploration.",
+         "The payload of AllAttemptsFailed and late hedge starts are not constrained by the statement.", "5/C12"),
+ "C13": ("property-based testing: generated schedules of atomic steps (limit algorithms) and generated simulator histories (service); step invariant and ground-truth comparison",
+         "Two generated engines: limit within [min,max] after every atomic step of concurrent feedback for AIMD controller/AIMD/Vegas; in_flight() equal to the scripted service's own count at every readiness check and quiescent instant, readiness refused only at the limit, also after drops and panics. Exploration.",
+         "Needs verif-hooks for the schedule engine; SC interleavings only; inner service always ready.", "5/C13"),
+ "C14": ("property-based testing: generated (configuration, attempt) pairs against an independent closed-form reference, plus a generated end-to-end outage in virtual time",
+         "Generated search over initial/multiplier/cap/factor and attempts up to usize::MAX for both backoff types and all ReconnectPolicy constructors: totality, value, cap, monotonicity, jitter range; end to end a reconnect loop runs for hundreds/thousands of attempts of virtual time. Exploration.",
+         "1e-9 relative tolerance; unrepresentable uncapped products only need to be total and monotone.", "5/C14"),
  "C02": ("property-based testing: generated concurrent arrival histories under a virtual clock; existential window-partition witness (dynamic program) / span predicate over admission timestamps",
          "Generated search over window type, limit, period (incl. float-unlucky values), timeout and bursts/gaps placed on window boundaries; the oracle only looks at when inner calls started and accepts every placement of windows the statement allows. Exploration.",
          "Admissions exactly at a cut instant may belong to either window; whole-millisecond instants.", "5/C02"),
@@ -37,10 +55,10 @@ manifest = {
  "version": 1,
  "setup_cmd": "cd /verif/harness && CARGO_NET_OFFLINE=true cargo build --release --offline",
  "hooks": {
-   "guard": "verif-hooks (cargo feature; not needed by the checks registered so far)",
-   "enable": "none yet: the registered checks build /repo's crates unmodified (path dependencies of /verif/harness)",
+   "guard": "verif-hooks (cargo feature of tower-resilience-core, forwarded by tower-resilience-retry and tower-resilience-adaptive)",
+   "enable": "/verif/harness/Cargo.toml depends on /repo/crates/* by path with features = [\"verif-hooks\"] on core, retry and adaptive; every ./check rebuilds them from /repo's working tree",
    "baseline_off_cmd": "cd /repo && cargo nextest run --workspace --no-fail-fast --tool-config-file pb:/w/lib/nextest.toml --profile pb --test-threads 8 --offline",
-   "source_commits": [],
+   "source_commits": ["8e75cc7"],
    "add_only": True,
  },
  "engines": [
